@@ -4,6 +4,7 @@ import (
 	"fmt"
 	"sort"
 	"strings"
+	"unicode/utf8"
 
 	art "github.com/Clement-Jean/go-art"
 	"golang.org/x/text/collate"
@@ -80,6 +81,14 @@ func NewCollUniverseD(sp CollSpec, cfg CollatorCfg, keyType string, custom bool,
 		as.NoAutoP = false
 	}
 	u, t := buildAlphaLike(as, sp.Prefix)
+	// Prefix arguments must be text: cuts inside a multi-byte character are out of the property's scope
+	var textual []int
+	for _, p := range u.Prefixes {
+		if utf8.ValidString(t.keys[p]) {
+			textual = append(textual, p)
+		}
+	}
+	u.Prefixes = textual
 	u.Kind = "collation"
 	u.KeyType = keyType
 	u.Name = fmt.Sprintf("collation[%s,%s]/%s", keyType, cfg.Name, sp.Name)
@@ -169,6 +178,9 @@ func CollPrefixFamilies() []CollSpec {
 	return []CollSpec{
 		{Name: "PFX-ASCII", Prefix: true, Free: []string{"a", "ab", "abc", "abd", "b", "ba", "A", "Ab"}, Probes: []string{"ac", "c"},
 			Prefixes: []string{"a", "ab", "abx", "A", "b", "c", "abc1"}},
+		// three-byte primary weights (CJK), case / width variants with equal primary weights
+		{Name: "PFX-CJK", Prefix: true, Free: []string{"a日", "A日", "a日本", "日", "㊐", "日本", "日本語", "一"}, Probes: []string{"本"},
+			Prefixes: []string{"a日", "日", "日本", "a", "一", "㊐", "日本語x"}},
 		{Name: "PFX-LONG", Prefix: true, Free: []string{P16 + "a", P16 + "ab", P16 + "b1", P16 + "b2", P16[:5] + "q", "z9", "z"}, Probes: []string{P16},
 			Prefixes: []string{P16, P16[:5], P16[:10], P16[:11], P16 + "b", P16 + "c", "z", "zz", "p"}},
 	}
